@@ -149,13 +149,20 @@ impl Options {
     ///
     /// This is always [`FORMATTED_SIZE`][FormattedSize::FORMATTED_SIZE]
     /// or [`FORMATTED_SIZE_DECIMAL`][FormattedSize::FORMATTED_SIZE_DECIMAL],
-    /// depending on the radix.
+    /// depending on the radix, plus 1 if the format requires a sign
+    /// (the sizes of unsigned types do not include one).
     #[inline(always)]
     pub const fn buffer_size_const<T: FormattedSize, const FORMAT: u128>(&self) -> usize {
-        if (NumberFormat::<FORMAT> {}.radix()) == 10 {
+        let format = NumberFormat::<FORMAT> {};
+        let size = if format.radix() == 10 {
             T::FORMATTED_SIZE_DECIMAL
         } else {
             T::FORMATTED_SIZE
+        };
+        if cfg!(feature = "format") && format.required_mantissa_sign() {
+            size + 1
+        } else {
+            size
         }
     }
 
